@@ -80,7 +80,7 @@ FLOORS = {
     "thorough": {"monitored_calls": 40000, "calls_returned": 25000, "input_objects_compared": 60000, "histories": 6000,
                  "cfd_returned": 1500, "metadata_shared_forms": 1500, "forms_with_ndarray_metadata": 1000,
                  "eq_true_distinct_objects": 1000, "eq_false_distinct_objects": 1000, "near_twins_built": 200,
-                 "history_rechecks": 60000, "caller_metadata_dicts_checked": 15000},
+                 "history_rechecks": 60000, "caller_metadata_dicts_checked": 15000, "suite:mut:monitored_calls": 12000},
 }
 COVER_FLOORS = {
     "quick": {"ops": ["compute_form_data", "attach_estimated_degrees", "apply_integral_scaling", "expand_derivatives",
@@ -1115,3 +1115,15 @@ def case(ctx, i, rng):
         # a real call ran into the per-call time limit (expression blow-up inside UFL): nothing is
         # decided for the interrupted call; the history ends here
         ctx.count("histories_abandoned_after_call_timeout")
+
+
+# ---- additional workload (thorough tier): every call the repository's own tests make to the public algorithms and
+# form operators, with the inputs of the outermost call snapshotted before and after (vf/suitemon.py, "mut:" targets)
+EXTRA_JOBS = {"thorough": ["suite"]}
+
+
+def extra_suite(ctx):
+    from ..suite_driver import run_suite
+    from ..suitemon import MUT_TARGETS
+
+    run_suite(ctx, ["mut:" + k for k in MUT_TARGETS], "C27")
